@@ -906,3 +906,14 @@ def mon_c10(spec, run):
 
 
 MONITORS["C10"] = mon_c10
+
+
+def _wire(name):
+    def f(spec, run):
+        from . import wire
+        return getattr(wire, name)(spec, run)
+    return f
+
+
+MONITORS["C03w"] = _wire("mon_c03w")
+MONITORS["C05w"] = _wire("mon_c05w")
